@@ -18,6 +18,25 @@
 #include "core/tokens.h"
 #include "core/Operator.h"
 
+// run() and parse_unary_new() call themselves and each other once for
+// every open parenthesis and every unary operator in front of an operand.
+#define MAX_EXPRESSION_DEPTH 512
+
+static int expression_depth = 0;
+
+struct ExpressionDepth
+{
+  ExpressionDepth()  { expression_depth++; }
+  ~ExpressionDepth() { expression_depth--; }
+
+  bool too_deep(AsmContext *asm_context)
+  {
+    if (expression_depth <= MAX_EXPRESSION_DEPTH) { return false; }
+    print_error(asm_context, "Expression nested too deep");
+    return true;
+  }
+};
+
 int EvalExpression::run(AsmContext *asm_context, Var &answer, bool is_paren)
 {
   char token[TOKENLEN];
@@ -25,6 +44,9 @@ int EvalExpression::run(AsmContext *asm_context, Var &answer, bool is_paren)
   VarStack var_stack;
   OperStack oper_stack;
   int count = 0;
+  ExpressionDepth depth;
+
+  if (depth.too_deep(asm_context)) { return -1; }
 
   while (true)
   {
@@ -264,8 +286,11 @@ int EvalExpression::parse_unary_new(AsmContext *asm_context, Var &answer)
 {
   char token[TOKENLEN];
   int token_type;
+  ExpressionDepth depth;
 
   answer.clear();
+
+  if (depth.too_deep(asm_context)) { return -1; }
 
   token_type = tokens_get(asm_context, token, TOKENLEN);
 
